@@ -270,8 +270,10 @@ def entry_str(e):
 if __name__ == "__main__":
     # development aid: python3 tools/c06_b.py <cfg>... : runs the cfgs, prints every verdict and model divergence
     ck = vf.Check("C06", "exploration", tier="quick")
+    if os.environ.get("C06B_ASSUME_OPEN"):     # development only: pretend the lead listed every finding as open
+        ck.known.update({i: {"id": i, "what": DEVTEXT[d]} for d, i in FINDING.items()})
     try:
-        run(ck, None, cfgs=sys.argv[1:])
+        run(ck, None, cfgs=sys.argv[1:] or QUICK)
     except vf.NotAVerdict as e:
         print("NOT-A-VERDICT", e)
         sys.exit(2)
